@@ -419,6 +419,7 @@ def run(chk):
 
     middleware_rule(chk, repo)
     hunt3_rules(chk, repo)
+    hunt4_rules(chk, repo)
     # ---- C07.capacity (dtable) ---------------------------------------------------------------------------------
     _capacity(chk, avail)
 
@@ -644,6 +645,49 @@ def _capacity(chk, avail):
     if not bad:
         chk.ok("C07.capacity", avail, f"capacity function agrees with the reference on all {rows} rows of the (limit, limit_per_host, |acquired|, |acquired[key]|) grid 0..3")
         chk.exhaustive_domains.append(f"C07.capacity: {rows} rows")
+
+
+def hunt4_rules(chk, repo):
+    """Rules written after the fourth defect hunt (F254, F255)."""
+    # ---- C07.key.stable: what is hashed into the connection key is not written while a request is in flight ------------------------------------------
+    # ClientRequest.connection_key hashes proxy_headers.items(); the mapping is built once per request and shared by all its hops: a hop that
+    # writes into it changes the key of the next hop - the pool is missed and limit_per_host counts two keys for one endpoint.
+    mod = repo.module(MOD)
+    nk = 0
+    for fn in [f for c in mod.classes.values() for f in c.methods.values()]:
+        defs = norm.fn_defs(fn.node).defs
+        for name, ds in defs.items():
+            aliases = [v for _d, v in ds if v is not None and "proxy_headers" in norm.raw(v) and not (isinstance(v, ast.Call) and norm.raw(v.func).split("[")[0] in ("CIMultiDict", "CIMultiDictProxy", "dict", "MultiDict"))
+                       and not isinstance(v, ast.Call)]
+            if not aliases:
+                continue
+            writes = [w for w in ast.walk(fn.node) if (isinstance(w, ast.Assign) and any(isinstance(t, ast.Subscript) and norm.raw(t.value) == name for t in w.targets))
+                      or (isinstance(w, ast.Call) and isinstance(w.func, ast.Attribute) and norm.raw(w.func.value) == name and w.func.attr in ("add", "update", "extend", "pop", "popall", "popone", "setdefault", "clear"))]
+            for w in writes:
+                nk += 1
+                chk.violation("C07.key.stable", w, K.short(w, 60), f"{name} = CIMultiDict({norm.raw(aliases[0])})  (work on a copy)",
+                              f"{fn.qualname} writes into `{name}`, which may be the request's own proxy_headers mapping - shared by every hop of the request and hashed into the connection key: after the first hop added `Host` the redirect hop has another key, opens a second proxy connection instead of reusing the pooled one and limit_per_host=1 lets two connections to one endpoint be acquired")
+    bld = repo.func(MOD, f"{CLS}._update_proxy_auth_header_and_build_proxy_req")
+    hdefs = [v for _d, v in norm.fn_defs(bld.node).defs.get("headers", []) if v is not None]
+    if hdefs and all(isinstance(v, ast.Call) for v in hdefs) and not nk:
+        chk.ok("C07.key.stable", bld, "the proxy request's headers are a copy of req.proxy_headers: the Host header is not written into the mapping the connection key hashes")
+    elif not nk:
+        chk.analysis_error("C07.key.stable: the `headers` of _update_proxy_auth_header_and_build_proxy_req were not found")
+    # ---- C07.proxy.close: the connection to the proxy is closed whatever fails before the tunnel is handed over ---------------------------------------------
+    cp = repo.func(MOD, "TCPConnector._create_proxy_connection")
+    conn_def = [a for a in ast.walk(cp.node) if isinstance(a, ast.Assign) and norm.raw(a.targets[0]) == "conn" and isinstance(a.value, ast.Call)]
+    if not conn_def:
+        chk.analysis_error("C07.proxy.close: the tunnel connection object of _create_proxy_connection was not found")
+    else:
+        els = [t.orelse[0].lineno for t in ast.walk(cp.node) if isinstance(t, ast.Try) and t.orelse and any(norm.raw(a) == "conn._protocol = None" for b_ in t.orelse for a in ast.walk(b_) if isinstance(a, ast.Assign))]
+        hand = min(els) if els else 10**9
+        for a in [a for a in prog.awaits_in(cp.node) if conn_def[0].lineno < a.lineno < hand]:
+            hs = [h for t_, h in K.enclosing_try_handlers(a) if prog.in_body_of(a, t_, "body") and (h.type is None or "BaseException" in PC.handler_types(h))]
+            if any(M.contains(h, "conn.close()") and isinstance(h.body[-1], ast.Raise) for h in hs):
+                chk.ok("C07.proxy.close", a, f"_create_proxy_connection(): `{K.short(a, 50)}` failing closes the connection to the proxy")
+            else:
+                chk.violation("C07.proxy.close", a, K.short(a, 60), "try: ... except BaseException: conn.close(); raise",
+                              "an exception while the CONNECT request is written (an invalid proxy header) leaves the TCP connection to the proxy open and unknown to the connector: it survives session.close() and is closed only by the garbage collector")
 
 
 def hunt3_rules(chk, repo):
